@@ -436,7 +436,7 @@ class _Shifted:
     __radd__ = __add__
 
 
-def _site_setup(kind):
+def _site_setup(kind, with_routines=False):
     from pdb2pqr import debump, hydrogens
 
     lines = [ln for ln in fixtures.peptide_lines(["ALA", "SER" if kind == "alcohol" else "ALA", "ALA"]) if not ln.startswith("END")]
@@ -452,6 +452,8 @@ def _site_setup(kind):
     routines.initialize_full_optimization()
     want = "Alcoholic" if kind == "alcohol" else "Water"
     obj = [o for o in routines.optlist if type(o).__name__ == want][0]
+    if with_routines:
+        return bm, deb, obj, routines
     return bm, deb, obj
 
 
@@ -572,6 +574,159 @@ def h_hydrogen_site(eng, kind, pre, then_complete):
 
 
 # ---------------------------------------------------------------------------
+# Q4d: the hydrogen-bond partner search (HydrogenRoutines.optimize_hydrogens): its result after the caller's
+# own distance filter must not depend on what the cell list returns BEYOND its guarantee (atoms closer than
+# the cell size are always returned - key / query lemmas; farther ones may or may not be).  Relational check:
+# two runs with the same symbolic distance, the far atom returned in one and withheld in the other.
+# ---------------------------------------------------------------------------
+
+
+class _StopAfterDetection(Exception):
+    pass
+
+
+def h_partner_search(eng, kind):
+    from pdb2pqr import hydrogens as hyd
+
+    bm, deb, obj, routines = _site_setup(kind, with_routines=True)
+    cellsize = deb.cells.cellsize  # whatever the real initialisation configured
+    centre = obj.atomlist[0]
+    other = [a for a in bm.atoms if a.residue is not obj.residue and a.name == "O" and (a.hacceptor or a.hdonor)][0]
+    d = eng.real("distance")
+    eng.assume(d > 0)
+    counts = []
+
+    class Util:
+        def __getattr__(self, name):
+            from pdb2pqr import utilities
+
+            return getattr(utilities, name)
+
+    u = Util()
+    u.distance = lambda a, b: d
+
+    def stop(*a, **k):
+        raise _StopAfterDetection()
+
+    u.analyze_connectivity = stop
+    for withheld in (False, True):
+
+        class CellsStub:
+            def get_near_cells(self, atom):
+                if atom is not centre:
+                    return []
+                if d < cellsize:
+                    return [other]  # guaranteed by the cell list
+                return [] if withheld else [other]
+
+        deb.cells = CellsStub()
+        for o in routines.optlist:
+            o.hbonds = []
+            o.finalize = lambda: None
+        with patched((hyd, "util", u)):
+            try:
+                routines.optimize_hydrogens()
+            except _StopAfterDetection:
+                pass
+        counts.append(len(obj.hbonds))
+    eng.derived["cell_size"] = cellsize
+    eng.check(counts[0] == counts[1], "partner-search-independent-of-atoms-beyond-the-cell-size", note=f"cell size {cellsize}: at distance {d} the partner is found only if the cell list happens to return it ({counts[0]} vs {counts[1]} potential bonds): the caller's distance cutoff exceeds the cell size")
+
+
+def h_bump_search(eng, heavy_query, heavy_other):
+    """the same relational obligation for Debump.find_nearby_atoms with the cell size Debump itself configures"""
+    from pdb2pqr import debump
+
+    bm, _ = fixtures.prepared(fixtures.peptide_lines(["ALA", "SER", "ALA"]))
+    bm.add_hydrogens()
+    deb = debump.Debump(bm)
+    deb.cells = None
+    real_cells = debump.cells.Cells
+    made = []
+
+    class Rec(real_cells):
+        def __init__(self, size):
+            made.append(size)
+            real_cells.__init__(self, size)
+
+    with patched((debump.cells, "Cells", Rec)):
+        try:
+            deb.debump_biomolecule()  # lets the real code choose its cell size
+        except Exception:  # noqa: BLE001 - only the configuration is of interest here
+            pass
+    eng.check(len(made) >= 1, "debump-builds-a-cell-list")
+    if not made:
+        return
+    cellsize = made[0]
+    q = bm.residues[0].get_atom("CB" if heavy_query else "HA")
+    o = bm.residues[2].get_atom("CB" if heavy_other else "HA")
+    d = eng.real("distance")
+    eng.assume(d > 0)
+    out = []
+
+    class Util:
+        def __getattr__(self, name):
+            from pdb2pqr import utilities
+
+            return getattr(utilities, name)
+
+    u = Util()
+    u.distance = lambda a, b: d
+    for withheld in (False, True):
+
+        class CellsStub:
+            def get_near_cells(self, atom):
+                if d < cellsize:
+                    return [o]
+                return [] if withheld else [o]
+
+        deb.cells = CellsStub()
+        with patched((debump, "util", u)):
+            out.append(len(deb.find_nearby_atoms(q)))
+    eng.check(out[0] == out[1], "bump-search-independent-of-atoms-beyond-the-cell-size", note=f"cell size {cellsize}: at distance {d} the clash partner is reported only if the cell list happens to return it ({out[0]} vs {out[1]})")
+
+
+def h_map_rebuilt(eng):
+    """whenever a pass (re)builds the cell list - debump pass, hydrogen optimisation set-up - after atoms were
+    deleted / re-created (the PROPKA flow: debump, remove hydrogens, titrate, add hydrogens, debump again), the
+    list holds exactly the atoms that exist now, each once"""
+    from pdb2pqr import debump, hydrogens
+
+    bm, _ = fixtures.prepared(fixtures.peptide_lines(["ALA", "SER", "LYS", "ALA"]))
+    bm.add_hydrogens()
+    deb = debump.Debump(bm)
+    first = eng.choice("first_pass", 2)
+    between = eng.choice("between_passes", 3)
+    second = eng.choice("second_pass", 2)
+    routines = hydrogens.HydrogenRoutines(deb, hydrogens.create_handler())
+
+    def run(which):
+        if which == 0:
+            deb.debump_biomolecule()
+        else:
+            routines.set_optimizeable_hydrogens()
+            bm.hold_residues(None)
+            routines.initialize_full_optimization()
+
+    run(first)
+    if between == 1:
+        bm.remove_hydrogens()
+        bm.add_hydrogens()
+    elif between == 2:
+        bm.remove_hydrogens()
+    run(second)
+    live = {id(a): a for a in bm.atoms}
+    listed = {}
+    for key, lst in deb.cells.cellmap.items():
+        for a in lst:
+            listed[id(a)] = listed.get(id(a), 0) + 1
+    ghosts = sorted({a.name for lst in deb.cells.cellmap.values() for a in lst if id(a) not in live})
+    what = f"{['debump pass', 'optimisation set-up'][first]}, {['nothing', 'hydrogens removed and rebuilt', 'hydrogens removed'][between]}, {['debump pass', 'optimisation set-up'][second]}"
+    eng.check(not ghosts, "rebuilt-map-holds-no-deleted-atoms", note=f"{what}: atoms that no longer exist are still in the cell list: {ghosts[:6]}")
+    eng.check(all(listed.get(i, 0) == 1 for i in live), "rebuilt-map-lists-every-atom-once", note=f"{what}: live atoms listed {sorted(set(listed.get(i, 0) for i in live))} times")
+
+
+# ---------------------------------------------------------------------------
 # Q5: the flip call sites (hydrogens/structures.py Flip.__init__ / fix_flip / finalize / complete)
 # ---------------------------------------------------------------------------
 
@@ -683,6 +838,11 @@ def obligations(tier):
         for pre in pres:
             for then_complete in (False, True):
                 obs.append(Obligation(f"hydrogen-site-{kind}-{'+'.join(pre) or 'bare'}{'-complete' if then_complete else ''}", h_hydrogen_site, dict(kind=kind, pre=list(pre), then_complete=then_complete), group="hydrogen-site", time_cap=1200))
+    obs.append(Obligation("map-rebuilt-between-passes", h_map_rebuilt, {}, group="map-rebuilt", time_cap=900))
+    for hq, ho in ((True, True), (True, False), (False, False)):
+        obs.append(Obligation(f"bump-search-{'heavy' if hq else 'hydrogen'}-{'heavy' if ho else 'hydrogen'}", h_bump_search, dict(heavy_query=hq, heavy_other=ho), group="partner-search", time_cap=600))
+    for kind in ("water", "alcohol"):
+        obs.append(Obligation(f"partner-search-{kind}", h_partner_search, dict(kind=kind), group="partner-search", time_cap=600))
     if tier == "thorough":
         obs.append(Obligation("debump-site-CYS-chi1-size2", h_debump_site, {"resname": "CYS", "anglenum": 0, "size": 2}, group="debump-site", time_cap=3000, max_paths=200000))
     for r in ("ASN",) if tier == "quick" else ("ASN", "GLN", "HIS"):
